@@ -22,7 +22,11 @@ lengths that were added (independently of codelimit):
 
 Round 5: OBSERVATION POINTS - the summary is also read from what `print_report(console, report, diff_report)` prints
 (both formats, with and without a comparison report), from `report_command` on written reports and from the CLI entry
-function in a fresh interpreter; ORDER - the files of a code base carry several languages in interleaved order."""
+function in a fresh interpreter; ORDER - the files of a code base carry several languages in interleaved order.
+
+Round 6: SCAN HISTORIES on real working trees (`harness/h4_round6.py`): scan / edit (add, remove, copy, move, modify, touch,
+exclude, remove a folder) / scan - the summary `codelimit scan` prints (scan_command) and the one `codelimit report`
+prints afterwards must show the shares of the files that are in the tree at that scan (truth: the construction of the sources)."""
 import io
 import os
 import sys
@@ -33,6 +37,7 @@ sys.path.insert(0, os.path.join(os.path.dirname(os.path.dirname(os.path.dirname(
 import common
 import h4_support as h4
 import h4_round5 as r5
+import h4_round6 as r6
 from props import C02
 
 ID = "C19"
@@ -417,6 +422,93 @@ def run_report_command(cur, prev, width, fresh=False):
     return bad
 
 
+def observe_tree(tree, step, state):
+    """one observation step of a scan / edit / scan history on a real working tree -> list of reasons.
+    ["scan", width]: the summary `codelimit scan` prints must show the shares of the tree AS IT IS NOW (truth by
+    construction of the sources); ["report", fmt, width]: `codelimit report` describes the tree as it was at the LAST scan"""
+    bad = []
+    if step[0] == "scan":
+        out = r6.scan_command_output(tree.root, step[1])
+        state["scanned"] = list(tree.lengths())
+        p = true_profile(state["scanned"])
+        where = "the summary printed by `codelimit scan` (scan number %d of this tree, console %d wide)" % (state.get("scans", 0) + 1, step[1])
+        state["scans"] = state.get("scans", 0) + 1
+    else:
+        if state.get("scanned") is None:
+            return []
+        out = r6.report_command_output(tree.root, step[1], step[2])
+        p = true_profile(state["scanned"])
+        where = "`codelimit report --format %s` after scan number %d (console %d wide)" % (step[1], state.get("scans", 0), step[2])
+    toks, code, num = read_summary(out, from_report=True)
+    bad += shown_triple_bad(p, toks, where)
+    bad += verdict_bad(toks, code, num, where)
+    if code == -1:
+        bad.append("%s: no verdict sentence" % where)
+    if bad:
+        bad.append("true profile of the scanned files: %s" % (list(p),))
+    return bad
+
+
+def run_scan_history(rnd, k, exts):
+    """-> (steps, failures, number of observations)"""
+    import shutil
+    import tempfile
+    d = tempfile.mkdtemp(prefix="c19_tree_")
+    state, fails, nobs = {}, [], 0
+    try:
+        tree = r6.start_tree(d, rnd, exts)
+
+        def obs(step):
+            tree.log.append(list(step))
+            b = observe_tree(tree, step, state)
+            if b:
+                fails.append(b)
+            return 1
+        nobs += obs(["scan", rnd.choice([80, 120, 200])])
+        for r in range(rnd.choice([1, 2, 2, 3])):
+            if rnd.random() < 0.25:
+                nobs += obs(["report", rnd.choice(["text", "markdown"]), 200])
+            r6.do_round(tree, rnd, k + r)
+            if rnd.random() < 0.15:
+                nobs += obs(["report", "text", 200])       # before the re-scan: still the last scanned state
+            nobs += obs(["scan", rnd.choice([80, 120, 200])])
+            if rnd.random() < 0.5:
+                nobs += obs(["report", rnd.choice(["text", "markdown"]), rnd.choice([80, 200])])
+        return [list(s) for s in tree.log], fails, nobs
+    finally:
+        shutil.rmtree(d, ignore_errors=True)
+
+
+def replay_scan_history(steps):
+    import shutil
+    import tempfile
+    d = tempfile.mkdtemp(prefix="c19_tree_")
+    state, fails = {}, []
+    try:
+        r6.replay_tree(d, steps, lambda tree, st: fails.extend(observe_tree(tree, st, state)))
+    finally:
+        shutil.rmtree(d, ignore_errors=True)
+    return fails
+
+
+def shrink_scan_history(steps):
+    """drop edit / observation steps while the history still fails"""
+    def failing(s):
+        try:
+            return bool(replay_scan_history(s))
+        except Exception:   # noqa: BLE001 - a dropped step made a later one inapplicable
+            return False
+    cur = list(steps)
+    i = 0
+    while i < len(cur) and len(cur) > 1:
+        cand = cur[:i] + cur[i + 1:]
+        if failing(cand):
+            cur = cand
+        else:
+            i += 1
+    return cur
+
+
 WIDTHS_QUICK = [22, 24, 30, 40, 50, 57, 58, 60, 80, 100, 120, 200, 300]
 
 
@@ -550,6 +642,25 @@ def run_object_streams(ctx, dis, fails, dist):
         if bad:
             fails.append({"input": {"stream": "commands", "cur": cur, "prev": prev, "width": w, "fresh": fresh}, "observed": bad[:4],
                           "required": "the summary printed by `codelimit report` shows the current code base's shares (C19), with or without --diff"})
+    # ---- HISTORIES ON DISK: scan / edit (add, remove, copy, move, modify, touch, exclude, remove a folder) / scan, observed
+    # at the summary `codelimit scan` prints and at later `codelimit report` runs; truth = the sources' construction
+    rnd = ctx.rng("scan-histories")
+    n_scan_hist = ctx.pick(60, 900)
+    for k in range(n_scan_hist):
+        exts = [("py",), ("py", "c"), ("py",), ("py", "c", "java", "ts", "js")][k % 4]
+        steps, bad, nobs = run_scan_history(rnd, k, exts)
+        dist["scan_histories"] = dist.get("scan_histories", 0) + 1
+        dist["scan_history_observations"] = dist.get("scan_history_observations", 0) + nobs
+        for st in steps:
+            if st[0] not in ("scan", "report"):
+                dist.setdefault("scan_history_edits", {})[st[0]] = dist.setdefault("scan_history_edits", {}).get(st[0], 0) + 1
+        if bad:
+            if sum(1 for f in fails if f["input"].get("stream") == "scan-history") < 3:
+                steps = shrink_scan_history(steps)
+                bad = [replay_scan_history(steps)] or bad
+            fails.append({"input": {"stream": "scan-history", "tree_steps": steps}, "observed": bad[0][:4],
+                          "required": "the summary printed by `codelimit scan` (and by a later `codelimit report`) shows the shares of the files that are "
+                                      "in the working tree at that scan (C19: within two points of the true share, verdict from the shown figures)"})
     # ---- compare
     model = common.run_driver_sharded(["qpp %d %d %d %d" % p for p, _, _ in checks])
     nontrivial = set()
@@ -566,7 +677,7 @@ def run_object_streams(ctx, dis, fails, dist):
             nontrivial.add((p, inp["width"]))
     if not h4.configuration_is_default():
         dis.append({"stream": "configured", "input": {"stream": "configured"}, "model": "default configuration restored", "impl": "configuration left modified"})
-    return len(checks), nontrivial
+    return len(checks) + dist.get("scan_history_observations", 0), nontrivial
 
 
 def profiles(ctx):
@@ -642,6 +753,10 @@ def correspond(ctx):
                        "summary, including the verdict sentence against the SHOWN figures (a `Totals` row, when there is one, holds the figures of the code base); "
                        "commands: written reports of 1..6 files in 1..4 interleaved languages through report_command(path, text | markdown, diff | None) on "
                        "consoles 60..300 wide, a few through the CLI entry function in a fresh interpreter"
+                       "; round 6: " + str(dist.get("scan_histories", 0)) + " scan / edit / scan histories on real working trees (1..7 source files of 1..5 languages whose function lengths "
+                       "are known by construction; edits: add, add an empty file, add a non-source file, remove, remove a folder, copy, move, modify, touch, "
+                       "exclude through a new .gitignore line; every third round is ONE edit of one kind) observed at the summary `codelimit scan` prints "
+                       "(scan_command, consoles 80..200) and at `codelimit report` (text / Markdown) after and between the scans: " + str(dist.get("scan_history_observations", 0)) + " observations"
                        "; non-trivial = distinct profiles with a positive hard-to-maintain or unmaintainable percentage",
         "samples": [{"profile": p, "model": m} for p, m in list(zip(ps, model))[-4:]] + [{"profile": (0, 0, 31, 62), "impl": real_qpp((0, 0, 31, 62))[0]}],
         "exhaustive": True, "distribution": dist,
@@ -685,6 +800,10 @@ def _steps_ok(inp):
 
 def replay(payload):
     inp = payload["input"]
+    if inp.get("stream") == "scan-history":
+        bad = replay_scan_history(inp["tree_steps"])
+        print("working tree history %s -> %s" % (inp["tree_steps"], bad or "ok"))
+        return not bad
     if inp.get("stream") == "commands":
         bad = run_report_command(inp["cur"], inp["prev"], inp["width"], bool(inp.get("fresh")))
         print("report_command on current %s previous %s -> %s" % (inp["cur"], inp["prev"], bad or "ok"))
